@@ -1,2 +1,2 @@
-LDFLAGS_w_c20 = $(SIMK_LDFLAGS) -Wl,--wrap=__asan_memcpy -Wl,--wrap=__asan_memmove -Wl,--wrap=__asan_memset
+LDFLAGS_w_c20 = $(SIMK_LDFLAGS) -Wl,--wrap=__asan_memcpy -Wl,--wrap=__asan_memmove -Wl,--wrap=__asan_memset -Wl,--wrap=vbi_caption_channel_switched
 EXTRAOBJ_w_c20 = $(SIMK_OBJ) $(O)/simk/race.o
